@@ -5,8 +5,18 @@ import sys
 
 path = sys.argv[1]
 phase = "import"
+if len(sys.argv) > 2 and sys.argv[2] == "--script":
+    # through the real file entry point
+    try:
+        from nada_dsl.compile import compile_script
+        print(json.dumps({"ok": json.loads(compile_script(path).mir)}))
+    except Exception as e:      # noqa
+        print(json.dumps({"exc": type(e).__name__, "msg": str(e)[:300], "phase": "compile_script"}))
+    sys.exit(0)
 try:
     from nada_dsl.compiler_frontend import nada_dsl_to_nada_mir
+    import os
+    sys.path.insert(0, os.path.dirname(os.path.abspath(path)))      # helper modules next to the program
     src = open(path, encoding="utf-8").read()
     ns = {"__name__": "prog"}
     exec(compile(src, path, "exec"), ns)
